@@ -198,7 +198,7 @@ PROPS["C03"] = {
     "also": ["C01"],   # the shared canon correspondence suite tags its violations C01
     "suites": [{"name": "collide", "quick": 8, "thorough": 50, "timeout": 3000}, {"name": "canon", "timeout": 3000},
                {"name": "ssasem", "quick": 6, "thorough": 40, "timeout": 3000}],
-    "lean_modules": ["SfwModel.Props.C03", "SfwModel.Props.C03Names", "SfwModel.Props.C03Select", "SfwModel.Props.C03Sem"],
+    "lean_modules": ["SfwModel.Props.C03", "SfwModel.Props.C03Names", "SfwModel.Props.C03Select", "SfwModel.Props.C03Sem", "SfwModel.Props.C03SemFuel"],
     "required_theorems": ["C03_commutative_guard", "C03_noncommutative_ops", "C03_swap_guard", "C03_no_swap_on_floats",
                           "C03_hoist_guard", "C03_recurrences_of_different_loops_differ", "C03_callee_names_distinct",
                           "C03_kept_literals_distinct", "C03_keepall_keeps", "C03_traversal_nodup", "C03_traversal_in_range",
@@ -207,7 +207,8 @@ PROPS["C03"] = {
                           "C03_recurrences_of_different_types_differ",
                           "C03_sem_commutative_sound", "C03_sem_string_concat_not_commutative", "C03_sem_swap_sound",
                           "C03_sem_swap_unsound_on_floats", "C03_sem_view_same_behaviour",
-                          "C03_sem_view_needs_table_ids", "C03_sem_view_needs_if_last"],
+                          "C03_sem_view_needs_table_ids", "C03_sem_view_needs_if_last",
+                          "C03_sem_fuel_monotone", "C03_sem_outcome_unique"],
     "level_text": "Kernel-checked on the Lean canonicaliser: canonical names are injective (the traversal of a well-formed CFG lists no block twice, every block is rendered exactly once and no two blocks share a label; the register map never gives one name to two values); guards: operands are reordered only for + * == != & | ^ and + only on numbers; a branch swap is recorded only for integer|string operands whose comparison feeds nothing but that If (never floats); only len/cap/complex/real/imag/min/max are hoisted and len/cap never on a map or channel; recurrences of different loops, different external callees and different kept literals print differently; KeepAllLiteralsPolicy abstracts no string and no int64. Behavioural tie and the search for collisions: every generated function P is edited into Q by the behaviour-changing catalogue (operator, operand, branch, callee, index, loop variable/step/compare, small literal, deliberately invalid commute/flip/hoist, exchanged nested loop variables, callee of another package, exchanged select cases), BOTH are executed natively on an input table, and whenever the outputs differ the fingerprints must differ under KeepAllLiterals and under the default policy.",
     "level_note": "PARTIAL: global injectivity of the canonical text (no two behaviourally different functions share it) is not proved - it needs a semantics of Go SSA; the theorems pin each normalisation's guard and the native-execution oracle searches for collisions.",
     "partial": "no SSA semantics in Lean: collisions are searched by native execution, guards are proved",
